@@ -110,6 +110,37 @@ def is_coroutine_state_ty(ty):
     return "{async fn body" in ty or "{async block" in ty or "{async closure" in ty
 
 
+def is_env_ty(ty):
+    """coroutine state or the environment of a plain closure: places `(*env).k` are captured variables (upvars)"""
+    return is_coroutine_state_ty(ty) or "{closure@" in ty
+
+
+def closure_site(prog, g):
+    """For a plain closure body g: (parent body, block, captured operands) of the statement that builds the closure."""
+    parent = prog.fns.get(g.b.get("parent") or "")
+    if parent is None:
+        return None
+    want = re.sub(r"#\d+$", "", g.path)
+    for bi, si, s in parent.statements():
+        if s[0] == "a" and s[2]["k"] == "agg" and s[2].get("ak") == "closure" and (s[2].get("def") or "") == want:
+            return parent, bi, s[2]["fields"]
+    return None
+
+
+def lift_operand(prog, g, o):
+    """An argument inside closure body g that is (a reborrow / copy of) a captured variable, expressed in the parent:
+    -> (parent body, block of the closure construction, parent operand) or None."""
+    sym = SymX(g).operand(o)
+    while sym[0] in ("ref", "deref", "cast"):
+        sym = sym[1]
+    if sym[0] != "upvar":
+        return None
+    cs = closure_site(prog, g)
+    if cs is None or sym[1] >= len(cs[2]):
+        return None
+    return cs[0], cs[1], cs[2][sym[1]]
+
+
 class Origins:
     """May-originate-from slice.  `of_operand(o)` / `of_place(p)` return a set of leaves:
        ("call", callee, bb)      result of a (non-transparent) call
@@ -133,7 +164,7 @@ class Origins:
         other projections -> the root local (field-insensitive)."""
         l = pl_local(p)
         proj = pl_proj(p)
-        if proj and is_coroutine_state_ty(self.fn.local_ty(l)):
+        if proj and is_env_ty(self.fn.local_ty(l)) and (l == 1 or is_coroutine_state_ty(self.fn.local_ty(l))):
             ks = [e for e in proj if e[0] in ("downcast", "field")]
             if len(ks) >= 2 and ks[0][0] == "downcast" and ks[1][0] == "field":
                 return ("cs", ks[0][1], ks[1][1])
@@ -242,6 +273,8 @@ class Origins:
                 continue
             rv = payload[2]
             rk = rv["k"]
+            if rk == "repeat":
+                out.add(("repeat", str(rv.get("n")), bi))
             if rk in ("use", "repeat"):
                 self._operand(rv["x"], out, seen, n)
             elif rk == "cast":
@@ -384,6 +417,9 @@ CARRY_CALLS = re.compile(
     r"T as core::convert::From::from|T as core::convert::Into::into|core::convert::identity|"
     r"core::result::Result::map_err#checked)$")
 IS_EOI = re.compile(r"^minicbor::decode::error::Error::is_end_of_input$")
+# the other kind predicates of minicbor's decode error: when one of them holds the error is *not* end-of-input, so what the
+# code does on that side is irrelevant to reassembly (minicbor-derive skips an unknown variant of an optional field this way)
+IS_OTHER_KIND = re.compile(r"^minicbor::decode::error::Error::is_(unknown_variant|type_mismatch|tag_mismatch|message|custom|missing_value)$")
 
 
 class ErrFlow:
@@ -549,6 +585,8 @@ class ErrFlow:
             if any(arg_car) and dl is not None:
                 if IS_EOI.match(name):
                     eoi[dl] = True
+                elif IS_OTHER_KIND.match(name):
+                    eoi[dl] = False       # true side: certainly not end-of-input (released); false side must still propagate
                 elif CARRY_CALLS.match(name):
                     ok = True
                     if name.endswith("from_residual"):
@@ -830,6 +868,10 @@ class SymX:
                     base = ("field", base, e[2] if e[2] is not None else e[1])
             elif k == "downcast":
                 base = ("downcast", base, e[2] if e[2] is not None else e[1])
+            elif k == "index":
+                base = ("index", base, self._slot(e[1], d - 1))
+            elif k == "cindex":
+                base = ("index", base, ("const", e[1], "usize")) if not e[3] else ("cindex", base, e[1], e[3])
             else:
                 base = (k, base)
         return base
@@ -866,6 +908,8 @@ class SymX:
             if rv["ak"] == "adt":
                 return ("agg", rv["adt"], rv["variant"], fields)
             return ("agg", rv["ak"], rv.get("def"), fields)
+        if k == "repeat":
+            return ("repeat", self.operand(rv["x"], d - 1), rv.get("n"))
         return ("other", k)
 
 
